@@ -1,5 +1,6 @@
 import CifModel.Lemmas.StoreIter
 import CifModel.Lemmas.StoreRefineQ
+import CifModel.Lemmas.StoreIterSpec
 /-
   Property C06 — packet iterators deliver each packet once; close commits, abort reverts.
 
@@ -196,5 +197,75 @@ private def s2 : Store := (addPacket (addPacket s1 lA [(a!"_a", .na), (a!"_b", .
 example : (getPackets s2 lA).2.toOption.isSome = true := by decide
 example : ((runCalls (getPackets s2 lA).1 ((getPackets s2 lA).2.toOption.getD default) [.next, .update [(a!"_b", .na)], .next, .remove, .next]).2.2).length = 2 := by
   decide
+
+-- ---- against the documented model (review gB, C06 S1 / S2) ------------------------------------------------------------------------------
+
+/-- WHAT a delivered packet holds, stated on the store and not through the model's own packet builder: for an iterator tied to its
+    store (`IterOk`: every live iterator of a history that keeps to the contract, `C04_iterator_tied`) with rows pending,
+    cif_pktitr_next_packet delivers, for every item of the loop in the loop's order, exactly the value STORED for that item in the
+    first pending row — the unknown value when the row has none — and moves on to that row. -/
+theorem C06_packet_is_stored (s : Store) (it : Iter) (d : Db) (h : IterOk it d) (hinv : Inv d) (hs : s.autocommit = false)
+    (r : ValueRow) (rest : List ValueRow) (hrows : it.rows = r :: rest) :
+    nextPacket s it = ({ it with rows := it.rows.dropWhile (fun x => x.rowNum == r.rowNum), prev := (r.rowNum : Int),
+                                 finished := (it.rows.dropWhile (fun x => x.rowNum == r.rowNum)).isEmpty },
+                       .ok (it.names.map (fun n => (n, cellK d it.cid n r.rowNum)))) :=
+  nextPacket_delivers s it d h hinv hs r rest hrows
+
+/-- cif_loop_get_packets against the documented model (`specItOpen`): CIF_INVALID_HANDLE for a loop without items, CIF_EMPTY_LOOP for a
+    loop without packets — the store is then what it was —, else an iterator before the first packet that remembers the CIF as it is -/
+theorem C06_open_refines (s : Store) (l : LH) (hg : Good s.db) (hv : l.validB s.db = true) (hac : s.autocommit = true) :
+    match (getPackets s l).2 with
+    | .ok it => specItOpen (absS s.db) l = .ok (absIter it (getPackets s l).1) ∧ (getPackets s l).1.db = s.db ∧
+                (getPackets s l).1.txn = some s.db ∧ IterOk it s.db
+    | .error c => specItOpen (absS s.db) l = .error c ∧ (getPackets s l).1 = s :=
+  getPackets_spec_abs s l hg hv hac
+
+/-- EVERY sequence of next / update / remove calls on an open iterator (tied to its store, inside its transaction, update packets
+    with distinct keys) runs on the documented model (`specCalls`: `specItNext` / `specItUpdate` / `specItRemove` on the loop's packet
+    list) exactly as on the store: the same final content, the same iterator position, and for EVERY call the same code and, for
+    next, the same packet.  So, over whole call sequences: each packet is delivered exactly once, in order, holding the values the
+    loop holds at that moment (updates made through the iterator included); CIF_FINISHED exactly when no packet is left;
+    CIF_MISUSE for update / remove exactly when there is no current packet (before the first next, after a remove);
+    CIF_WRONG_LOOP for an update naming an item of another loop; a remove deletes exactly the current packet. -/
+theorem C06_refines_calls (cs : List Call) (s : Store) (it : Iter) (d0 : Db) (hg : GoodS s) (hok : IterOk it s.db)
+    (ht : s.txn = some d0) (hk : cs.all Call.keysOk = true) :
+    absS (runCallsC s it cs).1.db = (specCalls (absS s.db) (absIter it s) cs).1 ∧
+    absIter (runCallsC s it cs).2.1 (runCallsC s it cs).1 = (specCalls (absS s.db) (absIter it s) cs).2.1 ∧
+    (runCallsC s it cs).2.2 = (specCalls (absS s.db) (absIter it s) cs).2.2 :=
+  let h := runCalls_refines cs s it d0 hg hok ht hk
+  ⟨h.1, h.2.1, h.2.2.1⟩
+
+/-- … and then: cif_pktitr_close returns CIF_OK and leaves the CIF with exactly the updates and removals applied (the content the
+    call sequence produced on the documented model); cif_pktitr_abort returns CIF_OK and the CIF is what it was when the iterator
+    was created (`AIter.start`), whatever the call sequence did; either way the CIF is in autocommit mode again. -/
+theorem C06_close_abort_refine (cs : List Call) (s : Store) (it : Iter) (d0 : Db) (hg : GoodS s) (hok : IterOk it s.db)
+    (ht : s.txn = some d0) (hk : cs.all Call.keysOk = true) :
+    let r := runCallsC s it cs
+    absS (closeIter r.1).1.db = (specCalls (absS s.db) (absIter it s) cs).1 ∧ (closeIter r.1).2 = .ok () ∧
+    (closeIter r.1).1.autocommit = true ∧
+    absS (abortIter r.1).1.db = absS d0 ∧ (abortIter r.1).2 = .ok () ∧ (abortIter r.1).1.autocommit = true := by
+  intro r
+  have h := runCalls_refines cs s it d0 hg hok ht hk
+  obtain ⟨c1, c2, c3, a1, a2, a3⟩ := closeAbort_abs r.1 r.2.1 d0 h.2.2.2.1
+  refine ⟨by rw [c1]; exact h.1, c2, c3, ?_, a2, a3⟩
+  rw [a1]
+  show absS ((runCallsC s it cs).1.txn.getD _) = _
+  rw [h.2.2.2.1]; rfl
+
+/-- the documented state machine, read off `specItNext` / `specItUpdate` / `specItRemove`: no packet left ⇒ CIF_FINISHED and the
+    iterator stays; no current packet ⇒ update and remove are CIF_MISUSE and change nothing -/
+theorem C06_documented_codes (a : AState) (ai : AIter) (x : ALoop) (hx : a.findLoop ai.cid ai.num = some x) :
+    (x.packets.length ≤ ai.done → specItNext a ai = (ai, .error CIF_FINISHED)) ∧
+    (ai.hasCur = false → ∀ p, specItUpdate a ai p = (a, .error CIF_MISUSE)) ∧
+    (ai.hasCur = false → specItRemove a ai = (a, ai, .error CIF_MISUSE)) := by
+  refine ⟨?_, ?_, ?_⟩
+  · intro hle
+    unfold specItNext
+    rw [hx]
+    simp only []
+    have : x.packets[ai.done]? = none := List.getElem?_eq_none hle
+    rw [this]
+  · intro hc p; unfold specItUpdate; simp [hc]
+  · intro hc; unfold specItRemove; simp [hc]
 
 end CifModel
